@@ -34,7 +34,7 @@ ENCODINGS = ["candle", "dict", "Dict", "list", "list_ts_first"]
 
 def plan(tier):
     if tier == "thorough":
-        return {"shards": 16, "cases": 16000, "shard_timeout_s": 3000, "shard_budget_s": 1500}
+        return {"shards": 16, "cases": 50000, "shard_timeout_s": 3000, "shard_budget_s": 1500}
     return {"shards": 16, "cases": 2400, "shard_timeout_s": 600, "shard_budget_s": 100}
 
 
